@@ -121,6 +121,10 @@ func parseJob(harness, param string) *interp.Job {
 					j.MaxSteps = n
 				case "solver":
 					j.Solver = v
+				case "decisions":
+					j.MaxDecisions = int(n)
+				case "paths":
+					j.MaxPaths = int(n)
 				case "expect":
 					j.Expect = append(j.Expect, v)
 				case "expectnot":
